@@ -2,6 +2,7 @@ package qbft
 
 import (
 	"fmt"
+	"os"
 	"sort"
 
 	"pgregory.net/rapid"
@@ -144,6 +145,10 @@ func runStaged(rt *rapid.T, e *stageEnv) {
 	if len(e.byzs) > 0 {
 		scenario = rapid.IntRange(0, 3).Draw(rt, "scenario")
 	}
+	forceAll := os.Getenv("VERIF_FORCE_SCENARIO") != ""
+	if forceAll {
+		fmt.Sscan(os.Getenv("VERIF_FORCE_SCENARIO"), &scenario)
+	}
 	switch {
 	case scenario == 1 || scenario == 2:
 		for r := int64(3); r <= 6; r++ {
@@ -169,12 +174,12 @@ func runStaged(rt *rapid.T, e *stageEnv) {
 	e.jumpRound = targetB
 	intent := func(name string, r int64, hi int, forced map[int64]int) int {
 		if target > 0 {
-			if v, ok := forced[r-target]; ok && rapid.IntRange(0, 4).Draw(rt, name+"Free") != 0 {
+			if v, ok := forced[r-target]; ok && (forceAll || rapid.IntRange(0, 4).Draw(rt, name+"Free") != 0) {
 				return v
 			}
 		}
 		if targetB > 0 {
-			if v, ok := forced[100+r-targetB]; ok && rapid.IntRange(0, 4).Draw(rt, name+"Free") != 0 {
+			if v, ok := forced[100+r-targetB]; ok && (forceAll || rapid.IntRange(0, 4).Draw(rt, name+"Free") != 0) {
 				return v
 			}
 		}
@@ -337,8 +342,11 @@ func runStaged(rt *rapid.T, e *stageEnv) {
 			}
 		}
 		// --- whose ROUND-CHANGEs arrive (per destination)
-		rcMode := intent("rcIntent", r, 5, map[int64]int{-4: 3, -3: 3, -2: 0, -1: 3, 98: 3, 99: 3, 100: 3})
+		rcMode := intent("rcIntent", r, 6, map[int64]int{-4: 3, -3: 3, -2: 0, -1: 3, 98: 3, 99: 6, 100: 3})
 		for _, h := range e.hon {
+			if rcMode == 6 && e.laggards[h] {
+				continue // members that did not time out do not hear of the round change yet (f+1 rule would pull them along)
+			}
 			var from map[int64]bool
 			switch {
 			case rcMode <= 2: // the prepared members' ROUND-CHANGEs are late
@@ -397,14 +405,19 @@ func (a *adversary) leaderPropose(rt *rapid.T, e *stageEnv, r, b int64) string {
 		mode = 6
 	}
 	switch {
-	case mode == 6:
+	case mode == 6 && len(nullJustification(a, honestRC, r)) >= a.s.Def.Quorum():
 		// equivocation towards members that are still in an earlier round (they jump on the justified
-		// PRE-PREPARE): they get both values, the others are partitioned between the two.
-		just, pv := a.qrcJustification(rt, p, r)
-		v1, v2 := pv, a.pickValue(rt, p)
-		if v1 == 0 {
-			v1 = a.pickValue(rt, p)
+		// PRE-PREPARE): they get both values, the others are partitioned between the two. The
+		// justification is a plain quorum of null ROUND-CHANGEs, the two values are real inputs.
+		just := nullJustification(a, honestRC, r)
+		cands := append([]int64{}, a.vals...)
+		for _, h := range a.hon {
+			cands = append(cands, 101+h)
 		}
+		i1 := rapid.IntRange(0, len(cands)-1).Draw(rt, "equivV1")
+		v1 := cands[i1]
+		cands = append(cands[:i1], cands[i1+1:]...)
+		v2 := cands[rapid.IntRange(0, len(cands)-1).Draw(rt, "equivV2")]
 		for _, h := range a.hon {
 			switch {
 			case e.laggards[h]:
@@ -468,6 +481,21 @@ func (a *adversary) leaderPropose(rt *rapid.T, e *stageEnv, r, b int64) string {
 		a.s.Inject(a.mk(cq.MsgPrePrepare, b, r, v, 0, 0, just, "ppJ"), a.hon)
 		return "justified_proposal"
 	}
+}
+
+// nullJustification is the J1 justification of a round-r PRE-PREPARE: the observed honest ROUND-CHANGEs
+// for r without a prepared value plus one null ROUND-CHANGE per Byzantine member.
+func nullJustification(a *adversary, honestRC []*qbftsim.M, r int64) []*qbftsim.M {
+	var just []*qbftsim.M
+	for _, m := range honestRC {
+		if m.PR == 0 {
+			just = append(just, m)
+		}
+	}
+	for _, x := range a.byz {
+		just = append(just, a.mk(cq.MsgRoundChange, x, r, 0, 0, 0, nil, "nested"))
+	}
+	return just
 }
 
 func seqInts(n int) []int {
